@@ -12,9 +12,11 @@ package blobstore
 // baCalls(b): number of Get/GetFromComposite/Put/FindMissing calls made on
 // backend b.
 //@ ghost baCalls(ref) int
+//@ ghost baGets(ref) int
 //@ iface BlobAccess.Get
-//@   modifies baCalls(self), baDigest(self)
+//@   modifies baCalls(self), baDigest(self), baGets(self)
 //@   ensures baCalls(self) == old(baCalls(self)) + 1 && result != nil && baDigest(self) == digest.value
+//@   ensures baGets(self) == old(baGets(self)) + 1
 //@ iface BlobAccess.GetFromComposite
 //@   modifies baCalls(self)
 //@   ensures baCalls(self) == old(baCalls(self)) + 1 && result != nil
@@ -28,9 +30,10 @@ package blobstore
 //@ ghost fmArg(ref) int
 //@ ghost fmRes(ref) int
 //@ ghost fmErr(ref) int
+//@ ghost fmResLen(ref) int
 //@ iface BlobAccess.FindMissing
-//@   modifies baCalls(self), fmArg(self), fmRes(self), fmErr(self)
-//@   ensures baCalls(self) == old(baCalls(self)) + 1
+//@   modifies baCalls(self), fmArg(self), fmRes(self), fmErr(self), fmResLen(self)
+//@   ensures baCalls(self) == old(baCalls(self)) + 1 && fmResLen(self) == len(result0.digests)
 //@   ensures fmArg(self) == base(digests.digests) && fmRes(self) == base(result0.digests) && fmErr(self) == result1
 
 // Property C17: the existence cache in front of a backend. The backend is asked
